@@ -69,6 +69,38 @@ def hasEmptySub : (d : Nat) → T d → Bool
 def partCounts (order : List Nat) (ranks : List (List Nat)) : List Nat :=
   order.map (fun v => (ranks.filter (fun r => r.contains v)).length)
 
+/-- apply `f` to every sub-tree `k` levels down (stored payloads, each at its own position) -/
+def mapAt {m : Nat} (f : T m → T m) : (k : Nat) → T (m + k) → T (m + k)
+  | 0, t => f t
+  | k + 1, t => (show List (Int × T (m + k)) from t).map (fun e => (e.1, mapAt f k e.2))
+
+/-- all fibers `k` levels down are empty (`all(fiber.isEmpty() for fiber in self.ranks[depth].fibers)`) -/
+def allEmptyAt {m : Nat} : (k : Nat) → T (m + k) → Bool
+  | 0, t => isEmpty (0 : Int) m t
+  | k + 1, t => (show List (Int × T (m + k)) from t).all (fun e => allEmptyAt k e.2)
+
+/-- `Tensor.swapRanks(depth=k)`: every fiber at depth `k` is replaced by `Fiber.swapRanks()` of it (flatten the
+    two ranks to pairs, sort on the reversed pairs, unflatten) — an empty fiber by an empty one; a tensor
+    whose fibers at that depth are all empty becomes the empty tensor -/
+def swapOpnd (k : Nat) (o : Opnd) : Except String Opnd := do
+  if k + 2 > o.ids.length then throw "C06: swap depth"
+  let r := o.ids.length - 2 - k
+  let ids' := o.ids.take k ++ [o.ids.getD (k + 1) 0, o.ids.getD k 0] ++ o.ids.drop (k + 2)
+  if h : o.ids.length = (r + 2) + k then
+    let t : T ((r + 2) + k) := castT h o.t
+    let sw : T (r + 2) → T (r + 2) := fun f =>
+      if isEmpty (0 : Int) (r + 2) f then defaultTree (0 : Int) (r + 2)
+      else
+        -- flattenRanks iterates both ranks: only the presented (non-empty) elements are carried over
+        let pres : T (r + 2) := (show List (Int × T (r + 1)) from
+          (present (0 : Int) (r + 1) f).map (fun e => (e.1, (show T (r + 1) from present (0 : Int) r e.2))))
+        swizzle (0 : Int) r 2 [1, 0] pres
+    let t' : T ((r + 2) + k) := if allEmptyAt k t then
+        (match k with | 0 => defaultTree (0 : Int) _ | _ + 1 => defaultTree (0 : Int) _)
+      else mapAt sw k t
+    mkOpnd ids' ((r + 2) + k) t'
+  else throw "C06: swap depth arithmetic"
+
 /-- `T / parts` on a tensor: the rank is first moved to the top (`swizzleRanks`), the root fiber is split
     with step `ceil(shape / parts)` (Fiber.__truediv__ with the rank's declared shape `n`) -/
 def tdivOpnd (n : Int) (v : Nat) (parts : Nat) (o : Opnd) : Except String Opnd := do
@@ -129,6 +161,10 @@ def stage (j : Json) (prevM prevS : Option ((d : Nat) × T d)) : Except String S
         mkOpnd (ranks.map (2 * ·)) ranks.length t)
   let orig ← parseOps prevM
   let origS ← parseOps prevS
+  -- re-ordering spelled with swapRanks: per operand the sequence of swap depths, applied BEFORE the tiling
+  let swaps ← opsJ.mapM (fun o => match (o.getObjVal? "swaps") with
+    | .ok (Json.arr a) => a.toList.mapM (fun x => x.getNat?)
+    | _ => pure [])
   let zr0 : List Nat := []
   let dummy : StageRes := { zr := zr0, zm := (0 : Int) }
   -- model domain: well-formed operands inside the declared shape, a loop order that is a
@@ -144,7 +180,8 @@ def stage (j : Json) (prevM prevS : Option ((d : Nat) × T d)) : Except String S
   if !(okOrder && okOps && okCover && okTiles && okU && (reps == 1 || reps == 2) && out.all (· < nv) && !orig.isEmpty) then
     return { dummy with oom := true }
   -- model pipeline: tile (splitUniform, then the `/` tilings), swizzle
-  let prepared ← orig.mapM (fun o => do
+  let prepared ← (orig.zip swaps).mapM (fun (o, sw) => do
+    let o ← sw.foldlM (fun o k => swapOpnd k o) o
     let o1 ← (tiles.filter (fun t => !tdiv.any (fun d => d.1 == t.1))).foldlM (fun o t => tileOpnd n t.1 t.2 o) o
     let o2 ← tdiv.foldlM (fun o d => tdivOpnd n d.1 d.2 o) o1
     swizzleOpnd (order.filter (o2.ids.contains ·)) o2)
@@ -172,6 +209,8 @@ def stage (j : Json) (prevM prevS : Option ((d : Nat) × T d)) : Except String S
     (if pc.any (· == 2) then ["coiter2"] else []) ++ (if pc.any (· ≥ 3) then ["coiter3"] else []) ++
     (if zr.isEmpty then ["scalar-out"] else ["populate"]) ++
     (if tiles.isEmpty then [] else ["tiled"]) ++ (if tdiv.isEmpty then [] else ["tiled-by-truediv"]) ++
+    (if swaps.any (!·.isEmpty) then ["reordered-by-swapRanks"] else []) ++
+    (if swaps.any (!·.isEmpty) && !tiles.isEmpty then ["swap-then-tile"] else []) ++
     (let has := fun (k : String) => match var.getObjVal? k with
         | .ok (Json.arr a) => a.any (fun x => match x with | Json.arr b => !b.isEmpty | Json.null => false | _ => true)
         | .ok (Json.bool b) => b
